@@ -2,6 +2,7 @@ import Rq.Model.Io
 import Rq.Model.Oracle
 import Rq.Model.Kernels
 import Rq.Model.Plan
+import Rq.Model.BitMat
 /-! Driver handlers for the codec engine (E3). I/O glue around the model functions. -/
 namespace Rq.DriverE3
 open Rq Rq.Io
@@ -239,3 +240,62 @@ def handle (w : List String) : Option String :=
   | _ => none
 
 end Rq.DriverP
+
+namespace Rq.DriverM
+open Rq Rq.Io
+
+inductive AnyMat where
+  | spec (m : BitMat)
+  | dense (m : Dense)
+
+def showBits (b : BinVec) : String := s!"{b.length}:{showList b.words}"
+
+/-- one op on either model; returns (new state, output token); `none` = panic -/
+def stepOp (st : AnyMat) (op : List String) : Option (AnyMat × String) :=
+  match st, op with
+  | .spec m, ["s", r, c, v] => (m.set (nat r) (nat c) (v == "1")).map fun m' => (.spec m', "ok")
+  | .dense m, ["s", r, c, v] => (m.set (nat r) (nat c) (v == "1")).map fun m' => (.dense m', "ok")
+  | .spec m, ["g", r, c] => if nat r < m.h ∧ nat c < m.w then some (st, if m.get (nat r) (nat c) then "1" else "0") else none
+  | .dense m, ["g", r, c] => (m.get (nat r) (nat c)).map fun v => (st, if v then "1" else "0")
+  | .spec m, ["sr", i, j] => (m.swapRows (nat i) (nat j)).map fun m' => (.spec m', "ok")
+  | .dense m, ["sr", i, j] => (m.swapRows (nat i) (nat j)).map fun m' => (.dense m', "ok")
+  | .spec m, ["sc", i, j, _] => (m.swapCols (nat i) (nat j)).map fun m' => (.spec m', "ok")
+  | .dense m, ["sc", i, j, h] => (m.swapCols (nat i) (nat j) (nat h)).map fun m' => (.dense m', "ok")
+  | .spec m, ["aa", d, s, _] => (m.addAssign (nat d) (nat s)).map fun m' => (.spec m', "ok")
+  | .dense m, ["aa", d, s, _] => (m.addAssign (nat d) (nat s)).map fun m' => (.dense m', "ok")
+  | .spec m, ["co", r, a, b] => some (st, toString (m.countOnes (nat r) (nat a) (nat b)))
+  | .dense m, ["co", r, a, b] => (m.countOnes (nat r) (nat a) (nat b)).map fun n => (st, toString n)
+  | .spec m, ["it", r, a, b] => some (st, showList (m.onesIn (nat r) (nat a) (nat b)))
+  | .dense m, ["it", r, a, b] =>
+      (m.rowIter (nat r) (nat a) (nat b)).map fun l => (st, showList (l.filterMap fun (c, v) => if v then some c else none))
+  | .spec m, ["oc", c, a, b] => some (st, showList (m.onesInCol (nat c) (nat a) (nat b)))
+  | .dense m, ["oc", c, a, b] => (m.onesInCol (nat c) (nat a) (nat b)).map fun l => (st, showList l)
+  | .spec m, ["sro", r, s] => some (st, showBits (m.subRow (nat r) (nat s)))
+  | .dense m, ["sro", r, s] => (m.subRow (nat r) (nat s)).map fun b => (st, showBits b)
+  | .spec m, ["nz", r, s] => some (st, showList (m.onesIn (nat r) (nat s) m.w))
+  | .dense m, ["nz", r, s] =>
+      (m.rowIter (nat r) (nat s) m.w).map fun l => (st, showList (l.filterMap fun (c, v) => if v then some c else none))
+  | _, ["fr", _] => some (st, "ok")
+  | _, ["en"] => some (st, "ok")
+  | _, ["di"] => some (st, "ok")
+  | .spec m, ["rs", h, w] => (m.resize (nat h) (nat w)).map fun m' => (.spec m', "ok")
+  | .dense m, ["rs", h, w] => (m.resize (nat h) (nat w)).map fun m' => (.dense m', "ok")
+  | .spec m, ["dims"] => some (st, s!"{m.h}x{m.w}")
+  | .dense m, ["dims"] => some (st, s!"{m.h}x{m.w}")
+  | _, _ => none
+
+def handle (w : List String) : Option String :=
+  match w with
+  | ["mat", kind, h, wd, ops] =>
+      let st0 : AnyMat := if kind == "dense" then .dense (Dense.new (nat h) (nat wd)) else .spec (BitMat.new (nat h) (nat wd))
+      let (_, outs) := (ops.splitOn ";").foldl (fun (acc : Option AnyMat × List String) op =>
+        match acc.1 with
+        | none => (none, acc.2 ++ ["-"])
+        | some st =>
+          match stepOp st (op.splitOn ":") with
+          | none => (none, acc.2 ++ ["err"])
+          | some (st', o) => (some st', acc.2 ++ [o])) (some st0, [])
+      some (" ".intercalate outs)
+  | _ => none
+
+end Rq.DriverM
